@@ -77,7 +77,13 @@ impl Prop for C05 {
     fn check(&self, c: &Case) -> Outcome {
         let d = differential(
             &c.prog,
-            &DiffOpts { spelling: &c.spelling, render: RenderOpts::CLEAN, both_scopings: true, ..DiffOpts::default() },
+            &DiffOpts {
+                spelling: &c.spelling,
+                render: RenderOpts::CLEAN,
+                both_scopings: true,
+                lim: engine_core::model::Limits { max_depth: 400, max_steps: 6000, ..engine_core::model::Limits::default() },
+                ..DiffOpts::default()
+            },
         );
         match to_outcome(d) {
             Err(o) => o,
